@@ -141,4 +141,40 @@ def group_unicode(root, repo, pid, P, tier):
     return final
 
 
-GROUPS = {"unicode": group_unicode}
+INMOD = {
+    # name: (harness path, tier, complete?, what, bound)
+    "c03": [("parser_state::verif_kani::constrain_idxs_complete", "quick", True,
+             "constrain_idxs(start, end, len) equals the index normalisation spec norm_idx for every i32 start, every Option<i32> end and every len <= i32::MAX (the contract ASSUMED in the core unit)",
+             "none: loop-free harness over the full domain")],
+    "c10": [("position::verif_kani::position_line_col_bounded_3", "quick", False,
+             "Position::line_col equals (1 + newlines, 1 + characters since the last newline) - every valid UTF-8 string of <= 3 bytes, every boundary offset", "strings <= 3 bytes, unwind 6"),
+            ("position::verif_kani::find_line_start_end_bounded_3", "thorough", False,
+             "find_line_start == ls, find_line_end == le, line_of is the bytes between them (the contracts ASSUMED in the lines unit) - strings <= 3 bytes", "strings <= 3 bytes, unwind 6"),
+            ("position::verif_kani::position_line_col_bounded_4", "thorough", False, "as above, strings <= 4 bytes", "strings <= 4 bytes, unwind 7"),
+            ("position::verif_kani::find_line_start_end_bounded_4", "thorough", False, "as above, strings <= 4 bytes", "strings <= 4 bytes, unwind 7")],
+}
+
+
+def _group_inmod(key):
+    def g(root, repo, pid, P, tier):
+        sel = [h for h in INMOD[key] if tier == "thorough" or h[1] == "quick"]
+        if not sel:
+            return []
+        hook = os.path.join(repo, "pest", "src", "position.rs")
+        try:
+            if "verif_kani" not in open(hook).read():
+                return [dict(harness=h[0], status="undecided", reason="cfg(kani) hook missing in /repo", complete=h[2], what=h[3], bound=h[4]) for h in sel]
+        except OSError as e:
+            return [dict(harness=h[0], status="undecided", reason=str(e), complete=h[2], what=h[3], bound=h[4]) for h in sel]
+        names = [h[0].split("::")[-1] for h in sel]
+        res, out, wall = run_cargo_kani(root, os.path.join(repo, "pest"), names, timeout=2400 if tier == "thorough" else 600, jobs=4)
+        final = []
+        for h in sel:
+            r = res[h[0].split("::")[-1]]
+            r.update(harness=h[0], complete=h[2], what=h[3], bound=h[4])
+            final.append(r)
+        return final
+    return g
+
+
+GROUPS = {"unicode": group_unicode, "inmod_c03": _group_inmod("c03"), "inmod_c10": _group_inmod("c10")}
